@@ -52,11 +52,15 @@ class C(Event):
     pass
 
 
+class D(Event):
+    pass
+
+
 def snapshot_handlers(comp):
     return {k: set(v) for k, v in comp._handlers.items()}
 
 
-def make_harness(steps_a, steps_b, steps_c, roots=1, max_ticks=40):
+def make_harness(steps_a, steps_b, steps_c, roots=1, max_ticks=40, c2_may_raise=False, chain=False):
     def harness(g):
         log = []
         produced = {}      # event tag -> list of produced markers (values / 'ERR')
@@ -95,6 +99,10 @@ def make_harness(steps_a, steps_b, steps_c, roots=1, max_ticks=40):
                     break
                 if act == 'raise':
                     do_raise(tag, h)
+                if act == 'fire_chain':
+                    # something the handler starts and does not wait for: part of its event's closure all the same
+                    self.fire(D(tag, 3))
+                    continue
                 if act == 'yield_none':
                     yield None
                 elif act == 'yield_val':
@@ -123,6 +131,8 @@ def make_harness(steps_a, steps_b, steps_c, roots=1, max_ticks=40):
         menu_b = menu_c + ['call_C', 'waito_C']
         # wait by *name* resumes on any event of that name: with several roots in flight that is another root's B by design
         menu_a = menu_c + (['call_B', 'waito_B', 'waitn_B', 'call_C'] if roots == 1 else ['call_B', 'waito_B', 'call_C'])
+        if chain:
+            menu_a = menu_a + ['fire_chain']
 
         class Comp(BaseComponent):
             @handler('A')
@@ -159,8 +169,17 @@ def make_harness(steps_a, steps_b, steps_c, roots=1, max_ticks=40):
             def on_c2(self, event, tag):
                 handlers_of.setdefault(tag, set()).add(1)
                 log.append(('start', tag, 1))
+                if c2_may_raise and g.flag('c2raise_%s' % tag):
+                    # raises while the other handler of the same event may still be suspended
+                    do_raise(tag, 1)
                 term(tag, 1, 'end')
                 return prod(tag, ('c2', tag))
+
+            @handler('D')
+            def on_d(self, event, tag, n):
+                log.append(('chain', tag, n))
+                if n > 0:
+                    self.fire(D(tag, n - 1))
 
             @handler('A_success', channel='*')
             def on_succ(self, e, value):
@@ -249,6 +268,11 @@ def make_harness(steps_a, steps_b, steps_c, roots=1, max_ticks=40):
             nc = len([x for x in log if x == ('complete', tag)])
             if terminal[(tag, 0)] != 'raised' and nc != 1:
                 g.fail('root-complete-count', w, detail)
+            if nc == 1:
+                ci = log.index(('complete', tag))
+                late = [x for x in log[ci:] if x[0] == 'chain' and x[1] == tag]
+                if late:
+                    g.fail('root-complete-before-its-effects', w, '%d chained events of %s dispatched after its complete; %s' % (len(late), tag, detail))
         # residue
         w = {'some_caller_never_resumed': any_never}
         if comp._tasks:
@@ -508,10 +532,12 @@ def parts(tier):
         return [
             Part('programs', make_harness(steps_a=3, steps_b=1, steps_c=1), bounds={'steps_A': 3, 'steps_B': 1, 'steps_C': 1, 'roots': 1},
                  encoded=ENC, budget_s=80),
-            Part('nested', make_harness(steps_a=1, steps_b=2, steps_c=2), bounds={'steps_A': 1, 'steps_B': 2, 'steps_C': 2, 'roots': 1},
+            Part('nested', make_harness(steps_a=1, steps_b=2, steps_c=2, c2_may_raise=True), bounds={'steps_A': 1, 'steps_B': 2, 'steps_C': 2, 'roots': 1, 'second_handler_of_C': 'returns or raises'},
                  encoded=ENC, budget_s=80),
             Part('two-roots', make_harness(steps_a=1, steps_b=1, steps_c=1, roots=2), bounds={'steps_A': 1, 'steps_B': 1, 'steps_C': 1, 'roots': 2},
                  encoded=ENC, budget_s=80),
+            Part('effects-after-resume', make_harness(steps_a=2, steps_b=1, steps_c=1, chain=True), bounds={'steps_A': 2, 'steps_B': 1, 'steps_C': 1, 'roots': 1,
+                 'extra_action_of_A': 'fire a chain of 4 events and go on (before or after a call/wait)'}, encoded=ENC, budget_s=80),
             Part('timeout', make_timeout_harness(), bounds={'T': '[-1,3] (z3 Int)', 'callee_yields': '0..4', 'how': ['call', 'wait by object', 'wait by name', 'wait by name, never fired']},
                  encoded=[M.Manager.waitEvent, M.Manager.processTask, M.Manager.tick], budget_s=60),
             Part('two-waiters', make_two_waiters_harness(), bounds={'T': '[-1,3] (z3 Int)', 'callee_yields': '0..3', 'waiters': 'one with timeout T (call / wait by object / by name), one without (by object / by name), on the same event'},
@@ -522,6 +548,10 @@ def parts(tier):
              encoded=ENC, budget_s=600),
         Part('programs', make_harness(steps_a=3, steps_b=1, steps_c=1), bounds={'steps_A': 3, 'steps_B': 1, 'steps_C': 1, 'roots': 1}, encoded=ENC, budget_s=1200),
         Part('programs-deep', make_harness(steps_a=2, steps_b=2, steps_c=1), bounds={'steps_A': 2, 'steps_B': 2, 'steps_C': 1, 'roots': 1}, encoded=ENC, budget_s=1200),
+        Part('effects-after-resume', make_harness(steps_a=3, steps_b=1, steps_c=1, chain=True), bounds={'steps_A': 3, 'steps_B': 1, 'steps_C': 1, 'roots': 1,
+             'extra_action_of_A': 'fire a chain of 4 events and go on'}, encoded=ENC, budget_s=1200),
+        Part('nested', make_harness(steps_a=1, steps_b=2, steps_c=2, c2_may_raise=True), bounds={'steps_A': 1, 'steps_B': 2, 'steps_C': 2, 'roots': 1, 'second_handler_of_C': 'returns or raises'},
+             encoded=ENC, budget_s=600),
         Part('two-roots', make_harness(steps_a=1, steps_b=2, steps_c=1, roots=2), bounds={'steps_A': 1, 'steps_B': 2, 'steps_C': 1, 'roots': 2}, encoded=ENC, budget_s=1200),
         Part('timeout', make_timeout_harness(max_callee_steps=6, max_ticks=24), bounds={'T': '[-1,3] (z3 Int)', 'callee_yields': '0..6'},
              encoded=[M.Manager.waitEvent, M.Manager.processTask, M.Manager.tick], budget_s=600),
